@@ -154,6 +154,51 @@ def strmeta_case(ev, hkind="function"):
     return p, p.block(ss)
 
 
+INHERIT_EVENTS = ["__add", "__concat", "__unm", "__eq", "__lt", "__le", "__index", "__newindex", "__call", "__tostring", "__metatable"]
+
+
+def inherit_case(ev):
+    """handlers are fetched RAW from the metatable: an event that only the metatable's own __index chain could supply
+    (the usual class hierarchy: Derived = setmetatable({}, {__index = Base}), obj = setmetatable({}, Derived), the event
+    defined on Base) does not exist for obj; defined raw in Derived it does"""
+    p = Prog()
+    h = p.func(["a", "b"], p.block([p.emit([p.str("h"), p.call(p.id("type"), [p.id("a")]), p.call(p.id("type"), [p.id("b")])]), p.ret([p.str("R")])]))
+    ss = [p.local(["Base"], [p.table([("k", _name(p, ev), p.str("locked") if ev == "__metatable" else h), ("k", _name(p, "plainfield"), p.str("inherited"))])]),
+          p.local(["Derived"], [p.call(p.id("setmetatable"), [p.table([]), p.table([("k", _name(p, "__index"), p.id("Base"))])])]),
+          p.local(["obj", "obj2"], [p.call(p.id("setmetatable"), [p.table([]), p.id("Derived")]), p.call(p.id("setmetatable"), [p.table([]), p.id("Derived")])]),
+          p.emit([p.str("reads"), p.call(p.id("type"), [p.field(p.id("Derived"), ev)]), p.call(p.id("type"), [p.call(p.id("rawget"), [p.id("Derived"), p.str(ev)])]), p.field(p.id("Derived"), "plainfield")])]
+    def probes(tag):
+        def probe(name, e):
+            ss.append(p.emit([p.str(tag + " " + name), p.call(p.id("select"), [p.num(1), p.call(p.id("pcall"), [p.func([], p.block([p.ret([e])]))])])]))
+        if ev == "__add":
+            probe("obj+1", p.bin("+", p.id("obj"), p.num(1))); probe("1+obj", p.bin("+", p.num(1), p.id("obj")))
+        elif ev == "__concat":
+            probe("obj..'x'", p.bin("..", p.id("obj"), p.str("x")))
+        elif ev == "__unm":
+            probe("-obj", p.un("-", p.id("obj")))
+        elif ev == "__eq":
+            probe("obj==obj2", p.bin("==", p.id("obj"), p.id("obj2"))); probe("obj~=obj2", p.bin("~=", p.id("obj"), p.id("obj2")))
+        elif ev == "__lt":
+            probe("obj<obj2", p.bin("<", p.id("obj"), p.id("obj2"))); probe("obj>=obj2", p.bin(">=", p.id("obj"), p.id("obj2")))
+        elif ev == "__le":
+            probe("obj<=obj2", p.bin("<=", p.id("obj"), p.id("obj2")))
+        elif ev == "__index":
+            probe("obj.missing", p.field(p.id("obj"), "missing"))
+        elif ev == "__newindex":
+            ss.append(p.emit([p.str(tag + " store"), p.call(p.id("pcall"), [p.func([], p.block([p.assign([p.field(p.id("obj"), "fresh" + tag)], [p.num(1)])]))]), p.call(p.id("rawget"), [p.id("obj"), p.str("fresh" + tag)])]))
+        elif ev == "__call":
+            probe("obj(1)", p.call(p.id("obj"), [p.num(1)]))
+        elif ev == "__tostring":
+            ss.append(p.emit([p.str(tag + " tostring"), p.bin("==", p.call(p.id("tostring"), [p.id("obj")]), p.str("R"))]))
+        elif ev == "__metatable":
+            ss.append(p.emit([p.str(tag + " getmetatable"), p.bin("==", p.call(p.id("getmetatable"), [p.id("obj")]), p.id("Derived")), p.call(p.id("select"), [p.num(1), p.call(p.id("pcall"), [p.id("setmetatable"), p.id("obj2"), p.id("Derived")])])]))
+    probes("inherited")
+    # now the event is defined raw in Derived: it exists
+    ss.append(p.assign([p.index(p.id("Derived"), p.str(ev))], [p.field(p.id("Base"), ev)]))
+    probes("own")
+    return p, p.block(ss)
+
+
 def index_case(rng):
     """__index / __newindex chains through tables and functions; raw access bypasses"""
     p = Prog()
